@@ -321,4 +321,27 @@ CHECKS = {
         assumptions=HIST_ASSUME,
         jobs=[dict(test="TestC10", quick=T(8, 8, 70), thorough=T(16, 200, 100, 3000))],
     ),
+    "C08": dict(
+        level="fault_enumeration",
+        level_text="The leveldb manager runs over a recording goleveldb storage (every file create / write / sync / rename / "
+                   "remove / SetMeta is logged). For EVERY commit and EVERY rollback of a generated history, every prefix of that "
+                   "operation's storage-call log, plus each write cut at a generated byte offset, is materialised as a fresh "
+                   "storage and reopened through the normal constructor path (leveldb journal recovery). The reopened store "
+                   "(frontier pointer, every key, redo and undo patch per height, historical view per id) must equal the "
+                   "crash-free store BEFORE or AFTER the operation and an independent map model; then the same operation, a "
+                   "rollback of the recovered commit, or a competing commit at that height must end in the crash-free result. "
+                   "Chain level: a follower node on the recording storage is fed a producer's momentums (several account blocks "
+                   "each); every crash point of every delivered momentum and of RollbackTo is reopened as a node: chain.Init "
+                   "must succeed, the dump must be before/after, re-delivery must reach the producer's state.",
+        level_note="Process-death model: completed writes survive, SetMeta is atomic, no fsync / power-loss reordering. Values are "
+                   "1..200 bytes (clear of C07's empty-value finding). leveldb compaction is not triggered at these sizes.",
+        technique="exhaustive crash-point enumeration per operation over generated histories (rapid) with before/after and continuation oracles",
+        rule="evaluation unit = crash point; non-trivial = crash point strictly inside an operation (0<k<total or a cut write) that "
+             "touches >=2 keys; distinct = (op kind, #keys, crash index, total storage calls)",
+        exhaustive_note="per operation: all storage-call boundaries + one torn variant per write; histories are sampled",
+        eval_counter="crash_points",
+        assumptions=["process death only; see level_note"],
+        jobs=[dict(test="TestC08Db", pkg="p08", quick=T(3, 400), thorough=T(6, 1500, 0, 3000)),
+              dict(test="TestC08Chain", pkg="p08", quick=T(5, 25), thorough=T(10, 200, 0, 3000))],
+    ),
 }
